@@ -605,6 +605,7 @@ var boundary = []string{
 	"package p\n\nvar a int // c1\n//line :1\n// c2\nvar b int\n",
 	"package p\n/*line :100*/ var a int /*line :1*/ // x\nvar b int\n",
 	"package p\n// doc\n//line :50\nfunc f() {}\n",
+	"//line :21\n// c\npackage p\n",
 	"package p\n//line :0\nvar x int\n//line :-1\n//line x.go:9999999999999\n//line x.go:1:0\n",
 	"package p\nfunc f(a ...int, b int) {}\n",
 	"package p\nfunc f() (r ...int) {}\n",
